@@ -6,7 +6,7 @@ from .. import framework as fw
 from . import inst_common as ic
 
 GEN_SECTIONS = ["Regexes", "Tables", "Unicode"]
-LEAVES = {'LoopGroups': []}
+LEAVES = {'LoopGroups': [], 'ComposeLoopGroups': []}
 IMP = ['buildNoteEvents']  # functions dumped as terms of the imperative embedding, run against CPython on every run
 TRUSTED = [
     "Lean 4 kernel; axioms ⊆ {propext, Classical.choice, Quot.sound}",
